@@ -212,7 +212,7 @@ def run(v) -> None:
             labs = [100.0 - 2 * c for c in range(C)]
             L = [[int(labs[2] * 100), int(labs[1] * 100)]] if rng.random() < 0.5 else []
             calls.append({"m": rng.choice(["mad", "iqrm"]), "tn": rng.choice([3, 2]), "td": 1, "L": L, "g": rng.choice(GFAM[:3]),
-                          "value": rng.choice([0, 1, top]), "gulp": rng.choice([1, 3, 7, N + 1]), "start": start, "nsamps": nsamps})
+                          "value": rng.choice([0, 1, top] + ([-2, 700] if nbits == 32 else [])), "gulp": rng.choice([1, 3, 7, N + 1]), "start": start, "nsamps": nsamps})
         files.append({"N": N, "C": C, "nbits": nbits, "fch1": 100, "foff": -2, "noisy": [rng.randrange(C)], "calls": calls})
     ospecs = [{"id": i, "hists": hists[i::12]} for i in range(12)]
     cspecs = [{"id": i, "seed": seed() * 37 + i, "files": files[i::6]} for i in range(6)]
